@@ -47,7 +47,7 @@ def run_threaded(sc):
     for p in params:
         p['wait_func'] = wait_func if lat else time.sleep
         p['rx_flowcontrol_timeout'] = sc.get('fc_timeout_ms', BIG_TIMEOUT_MS)
-        p['rx_consecutive_frame_timeout'] = BIG_TIMEOUT_MS
+        p['rx_consecutive_frame_timeout'] = sc.get('cf_timeout_ms', BIG_TIMEOUT_MS)
 
     # schedule perturbation at the synchronisation points of the threaded layer: the `threading.Event` and `queue.Queue`
     # objects that isotp.protocol creates from now on (per-request completion events, ...) yield the CPU for a moment right
@@ -332,6 +332,20 @@ class C13(PropBase):
         return {'ops': [], 'seed': rng.randrange(1 << 30), 'transport': transport, 'addrs': (a, b), 'params': (pa, pb), 'senders': senders,
                 'latency': rng.choice([0, 0, 0.0005, 0.002]), 'read_timeout': rng.choice([0.005, 0.05, 0.2]), 'noise': rng.random() < 0.5,
                 'perturb': rng.choice([0, 0.3, 0.6])}
+
+    def enumerate(self, tier):
+        """full duplex, both transmissions paced by a non-zero STmin: each layer streams its Consecutive Frames for longer than N_Cr while it
+        is itself in the middle of a reception - it has to keep reading the bus between its own frames (N_Cr 700 ms against 20 ms
+        between frames: three orders of magnitude above any scheduling delay seen)"""
+        a = {'mode': 0, 'txid': 0x123, 'rxid': 0x456}
+        b = {'mode': 0, 'txid': 0x456, 'rxid': 0x123}
+        for k, transport in enumerate(['queue_blocking', 'queue_legacy', 'canstack'] if tier == 'quick' else
+                                      ['queue_blocking', 'queue_legacy', 'canstack', 'notifier'] * 3):
+            n = 330 + 7 * k
+            senders = {0: [[(1, bytes([0, 0, 0]) + bytes([0x11] * n))]], 1: [[(2, bytes([1, 0, 0]) + bytes([0x22] * n))]]}
+            yield {'ops': [], 'seed': 4242 + k, 'transport': transport, 'addrs': (a, b),
+                   'params': ({'blocksize': 0, 'stmin': 20}, {'blocksize': 0, 'stmin': 20}), 'senders': senders, 'latency': 0,
+                   'read_timeout': 0.05, 'noise': False, 'perturb': 0, 'cf_timeout_ms': 700, 'fc_timeout_ms': 5000}
 
     def run_impl(self, sc):
         return run_threaded(sc)
